@@ -178,3 +178,154 @@ contract(
     result_is="tree_eq(self, other, -1)",
     ensures={"structural": "result == tree_eq(self, other, -1)"},
 )
+
+
+# ------------------------------------------------------------------------------------------------ JSON (C20): node_to_dict / as_node
+@spec
+def dict_is(d: "json", n: "Node", k: int) -> bool:
+    """k == -1: the JSON object d records the tree at n (type, value as hex, obfuscation, start, end and, in order, the children);
+    k >= 0: the entries of d["children"] from index k on record the children of n from index k on."""
+    if k < 0:
+        return (d["type"] == n.type and d["value"] == hexstr(n.value) and d["obfuscation"] == n.obfuscation and d["start"] == n.start and d["end"] == n.end
+                and len(d["children"]) == nchildren(n) and dict_is(d, n, 0))
+    if k >= nchildren(n):
+        return True
+    return dict_is(d["children"][k], child_at(n, k), -1) and dict_is(d, n, k + 1)
+
+
+lemma(
+    "dict-children-pairwise",
+    props=["C20"],
+    vars={"d": "json", "n": "Node", "k": "int"},
+    hyps=["0 <= k <= nchildren(n)"],
+    ih=["implies(k < nchildren(n), dict_is(d, n, k + 1) == forall(range(k + 1, nchildren(n)), lambda j: dict_is(d['children'][j], child_at(n, j), -1)))"],
+    goal="dict_is(d, n, k) == forall(range(k, nchildren(n)), lambda j: dict_is(d['children'][j], child_at(n, j), -1))",
+    notes="induction step on nchildren(n) - k",
+)
+
+contract(
+    "multidecoder.json_conversion.node_to_dict",
+    props=["C20"],
+    types={"node": "Node"},
+    returns="json",
+    requires={"finite-tree": ACYCLIC},
+    decreases="height(node)",
+    comp_each={"records-the-child": "dict_is(elem, child_at(node, k_), -1)"},
+    hints={"return": ["dict-children-pairwise: d=result; n=node; k=0"]},
+    ensures={"records-the-tree": "dict_is(result, node, -1)"},
+)
+
+
+@spec
+def tree_is(n: "Node", d: "json", k: int) -> bool:
+    """k == -1: the tree at n is the one the JSON object d records, with every child's parent link pointing at its parent;
+    k >= 0: the same for the children of n from index k on."""
+    if k < 0:
+        return (n.type == d["type"] and n.value == fromhex(d["value"]) and n.obfuscation == d["obfuscation"] and n.start == d["start"] and n.end == d["end"]
+                and nchildren(n) == len(d["children"]) and tree_is(n, d, 0))
+    if k >= nchildren(n):
+        return True
+    return child_at(n, k).parent == n and tree_is(child_at(n, k), d["children"][k], -1) and tree_is(n, d, k + 1)
+
+
+@spec
+def sub_ge(n: "Node", a0: int, k: int) -> bool:
+    """k == -1: every node of the tree at n was allocated at or after a0; k >= 0: the same for the sub-trees of the children of n from index k on."""
+    if k < 0:
+        return n >= a0 and sub_ge(n, a0, 0)
+    if k >= nchildren(n):
+        return True
+    return sub_ge(child_at(n, k), a0, -1) and sub_ge(n, a0, k + 1)
+
+
+SAME_FROM = ("forall(cells, lambda r: implies(r >= a0, r.type == old(r.type) and r.value == old(r.value) and r.obfuscation == old(r.obfuscation) and r.start == old(r.start) "
+             "and r.end == old(r.end) and r.parent == old(r.parent) and nchildren(r) == old(nchildren(r)) and forall(range(nchildren(r)), lambda c: child_at(r, c) == old(child_at(r, c)))))")
+
+lemma("tree-is-pairwise", props=["C20"], vars={"n": "Node", "d": "json", "k": "int"}, hyps=["0 <= k <= nchildren(n)"],
+      ih=["implies(k < nchildren(n), tree_is(n, d, k + 1) == forall(range(k + 1, nchildren(n)), lambda j: child_at(n, j).parent == n and tree_is(child_at(n, j), d['children'][j], -1)))"],
+      goal="tree_is(n, d, k) == forall(range(k, nchildren(n)), lambda j: child_at(n, j).parent == n and tree_is(child_at(n, j), d['children'][j], -1))",
+      notes="induction step on nchildren(n) - k")
+lemma("tree-is-fold", props=["C20"], vars={"n": "Node", "d": "json", "k": "int"},
+      hyps=["0 <= k <= nchildren(n)", "forall(range(k, nchildren(n)), lambda j: child_at(n, j).parent == n and tree_is(child_at(n, j), d['children'][j], -1))"],
+      ih=["implies(k < nchildren(n) and forall(range(k + 1, nchildren(n)), lambda j: child_at(n, j).parent == n and tree_is(child_at(n, j), d['children'][j], -1)), tree_is(n, d, k + 1))"],
+      goal="tree_is(n, d, k)", notes="induction step on nchildren(n) - k (the direction a constructor needs)")
+lemma("sub-ge-fold", props=["C20"], vars={"n": "Node", "a0": "int", "k": "int"},
+      hyps=["0 <= k <= nchildren(n)", "forall(range(k, nchildren(n)), lambda j: sub_ge(child_at(n, j), a0, -1))"],
+      ih=["implies(k < nchildren(n) and forall(range(k + 1, nchildren(n)), lambda j: sub_ge(child_at(n, j), a0, -1)), sub_ge(n, a0, k + 1))"],
+      goal="sub_ge(n, a0, k)", notes="induction step on nchildren(n) - k")
+lemma("sub-ge-pairwise", props=["C20"], vars={"n": "Node", "a0": "int", "k": "int"}, hyps=["0 <= k <= nchildren(n)"],
+      ih=["implies(k < nchildren(n), sub_ge(n, a0, k + 1) == forall(range(k + 1, nchildren(n)), lambda j: sub_ge(child_at(n, j), a0, -1)))"],
+      goal="sub_ge(n, a0, k) == forall(range(k, nchildren(n)), lambda j: sub_ge(child_at(n, j), a0, -1))", notes="induction step on nchildren(n) - k")
+lemma("sub-ge-mono", props=["C20"], vars={"n": "Node", "a0": "int", "b0": "int", "k": "int"}, hyps=["b0 <= a0", "k == -1 or 0 <= k <= nchildren(n)", "sub_ge(n, a0, k)"],
+      ih=["implies(k < 0 and sub_ge(n, a0, 0), sub_ge(n, b0, 0))",
+          "implies(0 <= k < nchildren(n) and sub_ge(child_at(n, k), a0, -1), sub_ge(child_at(n, k), b0, -1))",
+          "implies(0 <= k < nchildren(n) and sub_ge(n, a0, k + 1), sub_ge(n, b0, k + 1))"],
+      goal="sub_ge(n, b0, k)", notes="induction step (tree height, then nchildren(n) - k): a lower bound on the allocation index of a sub-tree can be weakened")
+# frame lemmas: a specification function that only reads the sub-tree of n has the same value in two heaps that agree from a0 on, when the sub-tree lies at or after a0
+lemma("sub-ge-frame", props=["C20"], vars={"n": "Node", "a0": "int", "k": "int"}, two_heaps=True,
+      hyps=[SAME_FROM, "k == -1 or (0 <= k <= nchildren(n) and n >= a0)", "old(sub_ge(n, a0, k))"],
+      ih=["implies(k < 0 and n >= a0 and old(sub_ge(n, a0, 0)), sub_ge(n, a0, 0))",
+          "implies(0 <= k < nchildren(n) and old(sub_ge(child_at(n, k), a0, -1)), sub_ge(child_at(n, k), a0, -1))",
+          "implies(0 <= k < nchildren(n) and old(sub_ge(n, a0, k + 1)), sub_ge(n, a0, k + 1))"],
+      goal="sub_ge(n, a0, k)", notes="induction step (tree height, then nchildren(n) - k)")
+lemma("tree-is-frame", props=["C20"], vars={"n": "Node", "d": "json", "a0": "int", "k": "int"}, two_heaps=True,
+      hyps=[SAME_FROM, "k == -1 or (0 <= k <= nchildren(n) and n >= a0)", "old(sub_ge(n, a0, k))", "old(tree_is(n, d, k))"],
+      ih=["implies(k < 0 and n >= a0 and old(sub_ge(n, a0, 0)) and old(tree_is(n, d, 0)), tree_is(n, d, 0))",
+          "implies(0 <= k < nchildren(n) and old(sub_ge(child_at(n, k), a0, -1)) and old(tree_is(child_at(n, k), d['children'][k], -1)), tree_is(child_at(n, k), d['children'][k], -1))",
+          "implies(0 <= k < nchildren(n) and old(sub_ge(n, a0, k + 1)) and old(tree_is(n, d, k + 1)), tree_is(n, d, k + 1))"],
+      goal="tree_is(n, d, k)", notes="induction step (tree height, then nchildren(n) - k)")
+
+contract(
+    "multidecoder.json_conversion.as_node",
+    props=["C20"],
+    types={"d": "json", "parent": "Node|None"},
+    returns="Node",
+    fresh_nodes=True,
+    raises={"ValueError": "True"},
+    decreases="jdepth(d)",
+    labels={"made": "node.children =", "built": "=node.children ="},
+    comp_each={
+        "child-is-the-entry": "tree_is(elem, d['children'][k_], -1)",
+        "child-points-at-its-parent": "elem.parent == node",
+        "child-is-new": "sub_ge(elem, fresh_from, -1)",
+    },
+    hints={"return node": [
+        "tree-is-frame@built: forall j: n=child_at(node, j); d=d['children'][j]; a0=at(made, alloc()); k=-1",
+        "sub-ge-frame@built: forall j: n=child_at(node, j); a0=at(made, alloc()); k=-1",
+        "sub-ge-mono: forall j: n=child_at(node, j); a0=at(made, alloc()); b0=old(alloc()); k=-1",
+        "tree-is-fold: n=node; d=d; k=0",
+        "sub-ge-fold: n=node; a0=old(alloc()); k=0",
+    ]},
+    asserts={"return node": {
+        # storing the list of children into `node` leaves every cell allocated after `node` as it was
+        "nothing-else-changed": "forall(cells, lambda r: implies(r >= at(made, alloc()), r.type == at(built, r.type) and r.value == at(built, r.value) and r.obfuscation == at(built, r.obfuscation) "
+                                "and r.start == at(built, r.start) and r.end == at(built, r.end) and r.parent == at(built, r.parent) and nchildren(r) == at(built, nchildren(r)) "
+                                "and forall(range(nchildren(r)), lambda c: child_at(r, c) == at(built, child_at(r, c)))))",
+        "children-as-built": "nchildren(node) == len(d['children']) and forall(range(nchildren(node)), lambda j: (lambda c: at(built, tree_is(c, d['children'][j], -1)) "
+                             "and at(built, sub_ge(c, at(made, alloc()), -1)) and c.parent == node)(child_at(node, j)))",
+        "children-still-match": "forall(range(nchildren(node)), lambda j: tree_is(child_at(node, j), d['children'][j], -1))",
+        "children-still-new": "forall(range(nchildren(node)), lambda j: sub_ge(child_at(node, j), at(made, alloc()), -1))",
+        "children-new-since-entry": "forall(range(nchildren(node)), lambda j: sub_ge(child_at(node, j), old(alloc()), -1))",
+        "fold-premise": "forall(range(nchildren(node)), lambda j: child_at(node, j).parent == node and tree_is(child_at(node, j), d['children'][j], -1))",
+        "children-fold": "tree_is(node, d, 0) and sub_ge(node, old(alloc()), 0)",
+    }},
+    ensures={
+        "is-the-recorded-tree": "tree_is(result, d, -1)",
+        "parent-link": "result.parent == parent",
+        "all-new": "sub_ge(result, old(alloc()), -1)",
+    },
+)
+
+lemma("hex-inverse", props=["C20"], vars={"x": "bytes"}, hyps=[], goal="fromhex(hexstr(x)) == x", notes="bytes.fromhex undoes bytes.hex", trusted=True)
+lemma(
+    "json-round-trip",
+    props=["C20"],
+    vars={"n": "Node", "m": "Node", "d": "json", "k": "int"},
+    hyps=["k == -1 or (0 <= k <= nchildren(n) and nchildren(m) == nchildren(n) and len(d['children']) == nchildren(n))", "dict_is(d, n, k)", "tree_is(m, d, k)"],
+    ih=["implies(k < 0 and nchildren(m) == nchildren(n) and len(d['children']) == nchildren(n) and dict_is(d, n, 0) and tree_is(m, d, 0), tree_eq(m, n, 0))",
+        "implies(0 <= k < nchildren(n) and dict_is(d['children'][k], child_at(n, k), -1) and tree_is(child_at(m, k), d['children'][k], -1), tree_eq(child_at(m, k), child_at(n, k), -1))",
+        "implies(0 <= k < nchildren(n) and dict_is(d, n, k + 1) and tree_is(m, d, k + 1), tree_eq(m, n, k + 1))"],
+    uses=["hex-inverse: x=n.value"],
+    goal="tree_eq(m, n, k)",
+    notes="induction step (tree height, then nchildren(n) - k) of: a tree m that is what the JSON object d records, where d records the tree n, is structurally equal to n",
+)
